@@ -71,3 +71,7 @@ PROPS['C06'] = dict(
 for _p, _fn, _lvl in (('C12', 'run_c12', 'other'), ('C13', 'run_c13', 'other'), ('C14', 'run_c14', 'other'), ('C15', 'run_c15', 'other'),
                       ('C19', 'run_c19', 'fault_enumeration'), ('C20', 'run_c20', 'other')):
     PROPS[_p] = dict(level=_lvl, e1=[], e2=('rtc.io_props', _fn), assumptions=COMMON, explanation='(being extended) bounded run on the real code')
+
+for _p, _fn, _lvl in (('C02', 'run_c02', 'other'), ('C07', 'run_c07', 'other'), ('C08', 'run_c08', 'other'), ('C09', 'run_c09', 'other'), ('C10', 'run_c10', 'other'),
+                      ('C16', 'run_c16', 'other'), ('C17', 'run_c17', 'exploration'), ('C18', 'run_c18', 'other')):
+    PROPS[_p] = dict(level=_lvl, e1=[], e2=('rtc.pipe_props', _fn), assumptions=COMMON, explanation='(being extended) bounded run on the real code through real files')
